@@ -174,9 +174,12 @@ pub fn post_process(model: &str, vars: &[(String, String)]) -> String {
                     Ok(s) => specs.push(s.to_string()),
                     Err(_) => return format!("err string {} {}", p[2], p[3]),
                 },
-                _ => match <VerbatimUrl as pep508_rs::Pep508Url>::parse_url(&text, Some(std::path::Path::new("/"))) {
-                    Ok(u) => url = Some((text.clone(), u.to_string())),
-                    Err(_) => return format!("err url {} {}", p[2], p[3]),
+                // (the external call runs the real crate in this process: a panic inside it is the implementation's, and the
+                //  worker's own answer for the same text reports it with the input)
+                _ => match std::panic::catch_unwind(|| <VerbatimUrl as pep508_rs::Pep508Url>::parse_url(&text, Some(std::path::Path::new("/")))) {
+                    Ok(Ok(u)) => url = Some((text.clone(), u.to_string())),
+                    Ok(Err(_)) => return format!("err url {} {}", p[2], p[3]),
+                    Err(_) => return "panic".into(),
                 },
             }
         }
@@ -241,7 +244,7 @@ pub fn post_process_unnamed(model: &str, vars: &[(String, String)]) -> String {
     if call == "-" || !then.starts_with("ok ") && !then.starts_with("err ") { return if then.starts_with("panic") { "panic".into() } else { then.to_string() }; }
     let p: Vec<&str> = call.split(':').collect();
     let text = unhex(p[1]);
-    let built: Result<VerbatimUrl, _> = match p[0] {
+    let built = std::panic::catch_unwind(|| -> Result<VerbatimUrl, _> { match p[0] {
         "file" => {
             let path = pep508_rs::strip_host(&text);
             let path = urlencoding::decode(path).map(|c| c.into_owned()).unwrap_or(path.to_string());
@@ -249,7 +252,8 @@ pub fn post_process_unnamed(model: &str, vars: &[(String, String)]) -> String {
         }
         "url" => <VerbatimUrl as UnnamedRequirementUrl>::parse_unnamed_url(&text),
         _ => <VerbatimUrl as UnnamedRequirementUrl>::parse_path(&text, "/work"),
-    };
+    } });
+    let Ok(built) = built else { return "panic".into() };
     match built {
         Err(_) => format!("err url {} {}", p[2], p[3]),
         Ok(u) => match then.strip_prefix("ok ") {
@@ -455,6 +459,8 @@ pub fn gen_deriv(rng: &mut Rng, p: &Pools) -> Deriv {
         "https://x.org/a;${VP_EMPTY}", "https://x.org/a#${VP_EMPTY}", "https://x.org/a;\u{1}", "https://x.org/b#\u{1f}", "https://x.org/${VP_TOKEN_1}",
         // percent signs in the path and the fragment of file URLs (decoded by the extension feature)
         "file:///tmp/p#x%2541", "file:///tmp/a%2541/b#c%25d", "file:///tmp/p.tar.gz#egg=pkg&subdirectory=python%2Fpkg", "file:///tmp/p%20q#egg=a%20b", "https://x.org/p#x%2541",
+        // percent escapes that do not decode to UTF-8 (a lone continuation byte, 0xFF, a truncated sequence, an encoded surrogate)
+        "file:///tmp/pkg-%FF.whl", "file:///tmp/a%80b", "file://localhost/tmp/x%E2%82", "file:///tmp/s%ED%A0%80#egg=x", "https://x.org/p%FF",
         // more than one `#`: the fragment starts at the FIRST one
         "file:///tmp/p.whl#sha256=abc#egg=demo", "https://x.org/p.whl#a#b"];
     let name = rng.pick(&names).to_string();
@@ -622,6 +628,14 @@ pub fn run(out: &mut Out, tier: &str, seed: u64, prop: &str) {
             texts.push(format!("pkg ; {q}{v}{q} {r} {l}"));
             texts.push(format!("pkg ; {l} {r} {q}{v}{q} or extra == 'x'"));
         } }
+        // `extra` compared with text that is not a valid name (kept verbatim) and contains a quote or escape-sensitive characters
+        for v in ["it's", "d'oh", "o'neil\\x", "x\"y", "e\u{301}'", "Not An Extra!"] {
+            let q = if v.contains('\'') { '"' } else { '\'' };
+            texts.push(format!("foo ; extra == {q}{v}{q}"));
+            texts.push(format!("foo[bar]>=1.0 ; os_name == 'posix' and extra != {q}{v}{q}"));
+            texts.push(format!("foo @ https://example.org/foo.whl ; {q}{v}{q} == extra"));
+            texts.push(format!("foo ; platform_release == {q}C:\\{v}{q}"));
+        }
         for text in texts {
             let ans = req_case(out, &mut w, &mut rc, prop, &text, &vars);
             if ans.starts_with("ok ") { round_trip(out, &mut rc, &text, &vars); out.stat("c08.targeted_markers"); }
@@ -777,6 +791,8 @@ pub fn run(out: &mut Out, tier: &str, seed: u64, prop: &str) {
             "requests-2.26.0.tar.gz", "foo.whl", "x.zip", "a.tar.bz2", "a.tgz", "pkg-1.0.tar.xz", "A.TAR.GZ", "a.tar", "a.tbz", "a.tar.lzma", "dir/a.whl", "~/x", "\\\\server\\share", "foo.tar.gz.sig",
             "${VP_HOME_DIR}/x", "a.tlz", "a.txz", "a.tar.lz", "b.b.zip", "n.gz", "tar.gz", "x.tar.gz2",
             // non-ASCII text: byte lengths and char counts differ
+            // percent escapes that do not decode to UTF-8
+            "file:///tmp/pkg-%FF.whl", "file://localhost/tmp/x%E2%82", "/tmp/lit-%FF.whl",
             // more than one `#` in a path: the fragment starts at the first one, the file is the part before it
             "/srv/wheels/demo-1.0-py3-none-any.whl#sha256=abc#egg=demo", "./dist/demo-1.0.tar.gz#subdirectory=pkg#frag",
             // a closing bracket that closes nothing (the bracket depth of the token scan must not go below zero)
@@ -788,7 +804,7 @@ pub fn run(out: &mut Out, tier: &str, seed: u64, prop: &str) {
             // followed by `;`, `#` or the end
             "/srv/wheel house/pkg-1.0-py3-none-any.whl", "/srv/wheel  house/pkg-1.0-py3-none-any.whl", "./a \t b/c.whl", "https://example.org/wheel\u{3000} house/pkg-1.0.whl?tag=\u{e9}", "../x   y\u{a0}\u{a0}z/p.tar.gz",
             "https://x.org/${VP_HOME_DIR}/a.whl", "git+https://h.org/${VP_TOKEN_1}/r.git", "file://${PROJECT_ROOT}/p", "../pr\u{f6}ject/dist", "https://example.org/p/nump\u{f6}.whl", "./\u{65e5}\u{672c}/p.whl", "/abs/\u{1F600}x", "https://example.org/a#egg=nump\u{f6}"];
-        let suffixes = ["", "[dev]", " ; os_name == 'a'", "[dev,test] ; python_version > '3'", " [x]", "  ", "\u{a0}; os_name == 'a'", "[dev]\u{3000};os_name == 'a'", "\u{b}", "\u{2003} "];
+        let suffixes = ["", "[dev]", " ; os_name == 'a'", "[dev,test] ; python_version > '3'", " [x]", "  ", "\u{a0}; os_name == 'a'", "[dev]\u{3000};os_name == 'a'", "\u{b}", "\u{2003} ", "[dev] ; extra == 'x' and python_version >= '3'"];
         // generated: every scheme form x rest, first path segments that are / are not valid names, and
         // leading whitespace before every shape
         let mut all: Vec<(String, bool)> = shapes.iter().map(|s| (s.to_string(), true)).collect();
@@ -1120,6 +1136,23 @@ fn unnamed_oracle(out: &mut Out, text: &str, shape: &str, suffix: &str) {
             if !suffix.starts_with(' ') || !suffix.contains('[') {
                 let got: Vec<String> = u.extras.iter().map(|e| e.to_string()).collect();
                 if got != want_extras { out.oracle_fail("C19", &format!("extras not recovered: {:?}", got), input.clone()); }
+            }
+            // the evaluation wrappers of the unnamed requirement are the marker's (C13 / C01): with an environment, without one,
+            // for active extras that differ from the requirement's own bracket extras
+            {
+                let env = crate::marker::CEnv::default_env().env();
+                for active in [vec![], vec!["dev"], vec!["x", "test"], vec!["zzz"]] {
+                    let ex: Vec<ExtraName> = active.iter().map(|e| ExtraName::from_str(e).unwrap()).collect();
+                    let with_env = (u.evaluate_markers(&env, &ex), u.evaluate_optional_environment(Some(&env), &ex));
+                    let without = u.evaluate_optional_environment(None, &ex);
+                    if with_env.0 != u.marker.evaluate(&env, &ex) || with_env.1 != with_env.0 {
+                        out.oracle_fail("C01", "UnnamedRequirement::evaluate_markers / evaluate_optional_environment(Some) differ from the marker's evaluate", serde_json::json!({"text": text, "active_extras": active}));
+                    }
+                    if without != u.marker.evaluate_extras(&ex) {
+                        out.oracle_fail("C13", "UnnamedRequirement::evaluate_optional_environment(None, extras) differs from the marker's evaluate_extras(extras)", serde_json::json!({"text": text, "active_extras": active}));
+                    }
+                }
+                out.stat("c19.unnamed_evaluation_wrappers");
             }
             let want_marker = suffix.contains(';');
             if want_marker == u.marker.is_true() { out.oracle_fail("C19", "marker not recovered", input.clone()); }
